@@ -43,6 +43,31 @@ theorem C13_bottomup_sound (P : Program) (hpos : ∀ c ∈ P, c.body.positive = 
     (h : bottomUp P fuel rounds [] = some F) : ∀ f ∈ F, f.ground = true ∧ Derivable P (.call f) :=
   bottomUp_sound P hpos fuel rounds [] F (by intro f hf; simp at hf) h
 
+/-- **Completeness, ground case** (`_partial`): for a ground (propositional) positive program, a derivable ground
+    positive goal has an answer whenever the search terminates.  The full statement — not proved here; it needs the
+    lifting lemma and most-generality of `unifyF` — is
+    `solve P g n = some as → Derivable P ((g.subst γ)) → ∃ a ∈ as, ∃ γ', (g.subst a).subst γ' = g.subst γ`. -/
+theorem C13_sld_complete_partial (P : Program)
+    (hP : ∀ c ∈ P, c.head.ground = true ∧ c.body.ground = true ∧ c.body.positive = true)
+    (g : Goal) (hg : g.ground = true) (hp : g.positive = true) (hd : Derivable P g)
+    (n : Nat) (as : List Subst) (h : solve P g n = some as) : as ≠ [] := by
+  unfold solve at h
+  cases hs : solveSt P n g ⟨[], g.maxVar⟩ with
+  | none => simp [hs] at h
+  | some sts =>
+    simp only [hs, Option.map_some, Option.some.injEq] at h
+    subst h
+    have := ground_complete P hP g hd hg hp n _ sts hs
+    simpa using this
+
+/-- **Negation as failure is sound, ground case** (`_partial`): for a ground positive program, a ground positive goal
+    whose SLD search fails finitely is not derivable — what justifies the `neg` rule of `Derivable`. -/
+theorem C13_naf_sound_partial (P : Program)
+    (hP : ∀ c ∈ P, c.head.ground = true ∧ c.body.ground = true ∧ c.body.positive = true)
+    (g : Goal) (hg : g.ground = true) (hp : g.positive = true) (n : Nat) (h : solve P g n = some []) :
+    ¬ Derivable P g :=
+  fun hd => C13_sld_complete_partial P hP g hg hp hd n [] h rfl
+
 /-- **Clause selection in program order**: for a predicate whose clauses `(id, head keys)` were appended in program
     order (distinct ids, keys of the predicate's arity), `find` returns exactly the clauses whose head may match the
     call — every call argument is non-ground, or the head argument is non-ground, or both are the same ground term —
@@ -91,6 +116,9 @@ example : ∃ ci, build 2 [(0, [none, some "1"]), (1, [some "a", some "2"]), (2,
       List (Int × List Key)).filter (fun c => mayMatch c.2 [some "a", none])).map (·.1) = [0, 1, 3] := by decide
   rw [e] at h
   exact h
+
+example : solve [⟨.sym "a", .call (.sym "b"), 0⟩, ⟨.sym "b", .tt, 0⟩] (.call (.sym "a")) 6 = some [[]] := by decide
+example : solve [⟨.sym "a", .call (.sym "b"), 0⟩] (.call (.sym "a")) 6 = some [] := by decide
 
 example : bottomUp [⟨.app (.sym "e") (.sym "a"), .tt, 0⟩,
     ⟨.app (.sym "r") (.var 0), .call (.app (.sym "e") (.var 0)), 1⟩] 5 5 [] =
